@@ -8,6 +8,7 @@ pub struct Prop {
     pub replay: fn(&str, &Value) -> Result<Outcome, String>,
 }
 
+pub mod c01;
 pub mod c02;
 pub mod c03;
 pub mod c04;
@@ -23,9 +24,13 @@ pub mod c16;
 pub mod c18;
 pub mod c20;
 
-pub static ALL: &[Prop] = &[c02::PROP, c03::PROP, c04::PROP, c05::PROP, c06::PROP, c08::PROP, c09::PROP, c11::PROP, c12::PROP, c14::PROP, c15::PROP, c16::PROP, c18::PROP, c20::PROP];
+pub static ALL: &[Prop] = &[c01::PROP, c02::PROP, c03::PROP, c04::PROP, c05::PROP, c06::PROP, c08::PROP, c09::PROP, c11::PROP, c12::PROP, c14::PROP, c15::PROP, c16::PROP, c18::PROP, c20::PROP];
 
 /// Internal sub-commands (child processes of a check).
-pub fn internal(_cmd: &str, _args: &[String]) -> Option<i32> {
-    None
+pub fn internal(cmd: &str, _args: &[String]) -> Option<i32> {
+    match cmd {
+        "c01-child" => Some(c01::child_main()),
+        "c01-stress" => Some(c01::stress_main(_args)),
+        _ => None,
+    }
 }
